@@ -74,9 +74,20 @@ def run(ck):
             Y[:K] = np.eye(K); Yv[:K] = np.eye(K)
         desc = dict(i=i, kernel=kern, diag=diag, iters=iters, q=q, early=early, rb=rb, base=base, n=n, d=d, metric=metric, seed=ck.seed)
 
+        # every third configuration hands the leaf model a kernel OBJECT (constructed by the caller with default arguments) instead of a name
+        as_object = (i % 3 == 1)
+        desc['kernel_object'] = as_object
+
+        def kernel_arg():
+            if not as_object:
+                return kern
+            from xrfm.rfm_src import kernels as KK
+            return {'l2': lambda: KK.LaplaceKernel(bandwidth=base, exponent=q), 'l2_high_dim': lambda: KK.LightLaplaceKernel(bandwidth=base, exponent=q),
+                    'l1': lambda: KK.ProductLaplaceKernel(bandwidth=base, exponent=q), 'lpq': lambda: KK.LpqLaplaceKernel(bandwidth=base, p=1.5, q=q)}[kern]()
+
         def fit(scale):
             xr.seed_all(1900 + i + ck.seed)
-            m = xr.RealRFM(kernel=kern, iters=iters, bandwidth=base, exponent=q, bandwidth_mode='adaptive', device='cpu', diag=diag, verbose=False,
+            m = xr.RealRFM(kernel=kernel_arg(), iters=iters, bandwidth=base, exponent=q, bandwidth_mode='adaptive', device='cpu', diag=diag, verbose=False,
                            tuning_metric=metric, **extra)
             with xr.quiet():
                 m.fit((T(X * scale), T(Y)), (T(Xv * scale), T(Yv)), iters=iters, reg=1e-2, verbose=False, early_stop_rfm=early, return_best_params=rb,
@@ -87,7 +98,7 @@ def run(ck):
             m, P = fit(1.0)
         except Exception as e:
             ck.violation(f'adaptive fit raised {e!r} on {desc}', dict(desc), key='fit-raise'); continue
-        ck.count(f'kernel={kern}'); ck.count(f'iters={iters}'); ck.count(f'best_iter={m.best_iter}'); ck.count(f'metric={metric}')
+        ck.count(f'kernel={kern}'); ck.count(f'iters={iters}'); ck.count(f'best_iter={m.best_iter}'); ck.count(f'metric={metric}'); ck.count('kernel given as an object' if as_object else 'kernel given by name')
         # ---- (a) stored bandwidth = base * lower median of the pairwise distances under the stored state ----
         D = kernel_distance_matrix(m, m.centers)
         off = D[~torch.eye(n, dtype=torch.bool)]
